@@ -29,7 +29,7 @@ COQ_TARGET = "props/C19.v"
 THEOREMS = ["C19_constants", "C19_log_bound", "C19_lex_log_bound", "C19_lex_error_cap", "C19_log_chars", "C19_unknown_char_step",
             "C19_unknown_ascii", "C19_unknown_word_step", "C19_syntax_error_entry", "C19_end", "C19_line_counter",
             "C19_only_layout_and_errors", "C19_unguarded_prints",
-            "C19_compile_log_entries", "C19_exec_log_bound", "C19_compile_log_chars", "C19_after_end_loop", "C19_after_end_partial"]
+            "C19_compile_log_entries", "C19_exec_log_bound", "C19_compile_log_chars", "C19_after_end_loop", "C19_after_end_partial", "C19_after_end_compile"]
 DRIVERS = ["core", "script"]
 RULE = ("valid programs (the command trees and random layouts of the C18 generator, 2..14 top-level commands over several lines) with "
         "0..8 offenders (every unknown ASCII character, some non-ASCII ones, unknown words Foo / XYZ1 / Abc_d / Zz) and 0..6 PRINT probes "
